@@ -20,7 +20,7 @@ RULE = (
     "ssl_context {none, create_urllib3_context(), same with check_hostname off, stdlib create_default_context with our CA} x "
     "CA source {ca_certs file, ca_cert_data, none = the OS default store, which SSL_CERT_FILE makes hold the other authority only} x issuer {trusted authority, the other authority} x certificate names {exact, mismatch, wildcard, "
     "IPv4, IPv6, commonName only} x requested host form {lower, UPPER, trailing dot, IPv4, [IPv6], [IPv6%25zone]} x backend "
-    "{ssl, pyOpenSSL} x path {direct, http-proxy CONNECT tunnel, https-proxy tunnel = real TLS in TLS with the proxy certificate ok / untrusted / wrong name and the proxy context own / the very object used for the destination, with or without proxy_assert_hostname}; direct cells optionally through a PoolManager that has just served the same origin with weaker per-request settings (pool_kwargs cert_reqs=CERT_NONE / assert_hostname=False). Every cell is a REAL TLS handshake (trustme certificates) over "
+    "{ssl, pyOpenSSL} x path {direct, http-proxy CONNECT tunnel, https-proxy tunnel = real TLS in TLS with the proxy certificate ok / untrusted / wrong name and the proxy context own / the very object used for the destination, with or without proxy_assert_hostname}; direct cells optionally through a PoolManager that has just served the same origin with weaker per-request settings (pool_kwargs cert_reqs=CERT_NONE / assert_hostname=False). Plus a scheduler part on the null-TLS layer: two pools on two threads share one context object, one pins its peer, the other must still reject a wrong-name peer under every schedule with <= 1 (thorough 2) preemptions. Every cell is a REAL TLS handshake (trustme certificates) over "
     "socket.socketpair() against an in-process server thread that records whether any application byte arrived after the "
     "handshake. Reference decision table (written from the documentation): which of chain / pin / hostname checks the settings "
     "demand and whether the peer passes them. Non-trivial = at least one demanded check fails, or cert_reqs is not REQUIRED."
@@ -503,6 +503,12 @@ def run_case(case) -> list[Failure]:
 
 
 def check_case(case):
+    if case.get("kind") == "ctxrace":
+        if case.get("pin") not in ("assert_hostname", "assert_hostname_false"):
+            raise core.InvalidCase
+        dec = {int(i): int(t) for i, t in case.get("decisions", [])}
+        s, obs = run_ctxrace(decisions=dec, pin=case["pin"])
+        return check_ctxrace(case, s, obs)
     backend = case.get("backend")
     if backend == "pyopenssl":
         import urllib3.contrib.pyopenssl as po
@@ -584,8 +590,78 @@ def pairwise_core(backend):
                 yield c
 
 
+# --------------------------------------------------------------------------- one SSLContext shared by two threads
+
+
+def run_ctxrace(decisions=None, random_seq=None, pin="assert_hostname"):
+    """Two pools on two threads share ONE caller-supplied context (null-TLS layer, owned scheduler). Pool A pins its peer
+    (assert_hostname / assert_fingerprint), which makes urllib3 switch check_hostname off ON THAT OBJECT; pool B uses default
+    settings against a server whose certificate names another host.  Under every schedule B's request must not be sent."""
+    import urllib3
+    from urllib3 import exceptions as ue
+
+    from vlib import fakenet, nulltls, sched, world
+
+    nulltls.reset()
+    w = world.World(handler=lambda wd, entry: {"status": 200})
+    good = nulltls.Identity([("DNS", "good.test")], label="good")
+    w.add_origin("https", "good.test", 443, identity=good)
+    w.add_origin("https", "bad.test", 443, identity=nulltls.Identity([("DNS", "other.test")], label="wrong-name"))
+    ctx = nulltls.NullTLSContext("shared")
+    net = fakenet.Net(w)
+    net.install()
+    res: dict = {}
+    try:
+        kwa = {"assert_hostname": "good.test"} if pin == "assert_hostname" else {"assert_hostname": False}
+        pa = urllib3.HTTPSConnectionPool("good.test", 443, ssl_context=ctx, retries=False, **kwa)
+        pb = urllib3.HTTPSConnectionPool("bad.test", 443, ssl_context=ctx, retries=False)
+        s = sched.Scheduler(decisions=decisions, random_seq=random_seq, targets=[("connection.py", "_ssl_wrap_socket_and_match_hostname"), ("connection.py", "connect")])
+
+        def req(name, pool, path):
+            def run():
+                try:
+                    r = pool.urlopen("GET", path)
+                    res[name] = ("ok", r.status)
+                except sched.SchedAbort:
+                    raise
+                except BaseException as e:  # noqa: BLE001
+                    res[name] = ("err", type(e).__name__, isinstance(e, ue.HTTPError))
+            return run
+
+        s.spawn("pinned", req("a", pa, "/a"))
+        s.spawn("default", req("b", pb, "/secret"))
+        s.run()
+        sent = [e for e in w.log if e["route"] != "connect" and e["target"] == "/secret"]
+        pa.close()
+        pb.close()
+    finally:
+        net.uninstall()
+    return s, (res, sent)
+
+
+def check_ctxrace(case, s, obs):
+    res, sent = obs
+    sig = {"part": "ctxrace", "pin": case.get("pin", "assert_hostname")}
+    brief = f"{ {k: v for k, v in case.items() if k != 'kind'} } schedule={s.taken} results={res}"
+    if s.deadlock or s.runaway:
+        return [Failure("ctxrace-deadlock", sig, f"deadlock {s.deadlock}: {brief}")]
+    fails = []
+    if sent:
+        fails.append(Failure("bytes-sent", {**sig, "failed": "hostname", "what": "shared-context-race"}, f"the default-settings request reached a server whose certificate names another host: {brief}"))
+    b = res.get("b")
+    if b is None or b[0] == "ok":
+        if not sent:
+            fails.append(Failure("no-error", {**sig, "failed": "hostname"}, f"no error for the mismatching peer: {brief}"))
+    elif not b[2]:
+        fails.append(Failure("error-type", {**sig, "exc": b[1], "failed": "hostname"}, f"not a urllib3 error: {brief}"))
+    a = res.get("a")
+    if a is None or a[0] != "ok":
+        fails.append(Failure("spurious-failure", {**sig, "exc": a[1] if a else "none", "ctx": "shared", "san": "exact"}, f"the pinned request to the good peer failed: {brief}"))
+    return fails
+
+
 def shards(tier, seed):
-    out = []
+    out = [{"part": "ctxrace", "backend": "ssl", "pin": pin, "bound": 1 if tier == "quick" else 2} for pin in ("assert_hostname", "assert_hostname_false")]
     for backend in ("ssl", "pyopenssl"):
         if tier == "quick":
             n = sum(1 for _ in pairwise_core(backend))
@@ -606,6 +682,19 @@ def shards(tier, seed):
 def run_shard(spec):
     col = core.Collector()
     backend = spec["backend"]
+    if spec["part"] == "ctxrace":
+        from vlib import sched
+
+        base = {"kind": "ctxrace", "pin": spec["pin"]}
+
+        def make_run(decisions, rs):
+            s, obs = run_ctxrace(decisions=decisions, pin=spec["pin"])
+            return s, check_ctxrace(base, s, obs)
+
+        for decisions, s, fails in sched.explore(make_run, spec["bound"], max_runs=20000):
+            case = dict(base, decisions=sorted([list(x) for x in decisions.items()]))
+            col.case(case, any(t[4] for t in s.taken), ["ctxrace", "ctxrace:" + spec["pin"], "preemptions:%d" % sum(1 for t in s.taken if t[4])], fails, distinct_by_construction=True)
+        return col
     if backend == "pyopenssl":
         import urllib3.contrib.pyopenssl as po
 
